@@ -73,6 +73,10 @@ class Check:
     def finish(self):
         os.makedirs(OUT, exist_ok=True)
         os.makedirs(EVID, exist_ok=True)
+        if self.replay_key is None:
+            for fn in os.listdir(OUT):
+                if fn.startswith(self.pid + "_") and fn.endswith(".json"):
+                    os.remove(os.path.join(OUT, fn))
         known = load_known(self.pid)
         known_keys = {e["key"]: e for e in known if e.get("status") == "known"}
         viol = [o for o in self.oblig if o["status"] == "violated"]
@@ -85,6 +89,12 @@ class Check:
                 new.append(v)
         if self.replay_key is not None:
             new = [v for v in new if v["key"] == self.replay_key]
+        uniq, seenk = [], set()
+        for v in new:
+            if v["key"] not in seenk:
+                seenk.add(v["key"])
+                uniq.append(v)
+        new = uniq
         seen = set()
         for v in listed:
             if v["key"] in seen:
